@@ -148,6 +148,19 @@ func Families() []Named {
 		{"start-start-not-first", Parse("start", abc[:3], "A: TB | TC A ; start: start TA A | TA A")},
 		// a reduce/reduce conflict between two rules that carry the same precedence level
 		{"rr-same-level-left", Parse("S", []string{"TA", "TC"}, "S: V | C ; V: TA %prec TC ; C: TA %prec TC").WithPrec("left TC")},
+		// the same production written twice (legal: a reduce/reduce conflict that goes to the first copy), more rules after it
+		{"duplicate-rule", Parse("S", nil, "S: A B ; A: 'x' | 'x' ; B: 'y' | 'z' B")},
+		// two nonterminals whose nullability depends on each other, one of them with an empty alternative,
+		// used behind another nonterminal
+		{"nullable-cycle", Parse("S", []string{"TP", "TO", "TB", "TE"}, "S: P O Y T ; H: O ; P: TP ; Y: TB ; T: TE ; O: H TO | ")},
+		// a leftmost chain over five nonterminals, written neither top-down nor bottom-up
+		{"leftmost-chain-mixed-order", Parse("S", abc[:3], "S: A TA ; D: TB ; A: B TB ; C: D TA ; B: C TC")},
+		// named tokens declared with string aliases, one alias spelled like a nonterminal of the grammar
+		{"aliased-tokens", func() *Spec {
+			s := Parse("S", []string{"TN", "TP"}, "S: S TP N | N ; N: TN")
+			s.Tokens = []TokDecl{{Name: "TN", Alias: "N"}, {Name: "TP", Alias: "+"}}
+			return s
+		}()},
 		{"rr-same-level-right", Parse("S", []string{"TA", "TC"}, "S: V TA | C TA | V ; V: TA %prec TC ; C: TA %prec TC").WithPrec("right TC")},
 	}
 }
@@ -164,6 +177,59 @@ func BigFamilies() []Named {
 		// a rule with more than 256 right-hand-side symbols, a nonterminal behind position 256
 		{"rhs-258", LongRule(256)},
 	}
+}
+
+// PermFamilies: grammars for the table-level explorations only: one with seventy terminals, and every order of
+// the rules of a few small grammars (the start symbol is declared, so the order of the rules means nothing).
+func PermFamilies() []Named {
+	var out []Named
+	bases := []struct {
+		name  string
+		start string
+		terms []string
+		rules []string
+	}{
+		{"leftmost-chain", "S", abc[:3], []string{"S: A TA", "A: B TB", "B: C TC", "C: D TA", "D: TB"}},
+		{"nullable-cycle", "S", []string{"TP", "TO", "TB"}, []string{"S: P O Y", "H: O", "O: H TO", "O: ", "P: TP", "Y: TB"}},
+	}
+	// seventy terminals (symbol numbers beyond 64): a reduction whose lookahead set is the whole alphabet, and
+	// a reduce/reduce conflict under the terminal with the highest number
+	{
+		var terms, alts []string
+		for i := 1; i <= 70; i++ {
+			t := "TA" + itoa(i/10) + itoa(i%10)
+			terms = append(terms, t)
+			alts = append(alts, t)
+		}
+		out = append(out, Named{Name: "seventy-terminals", Spec: Parse("S", terms, "S: H T | V TA70 | W TA70 TA01 ; H: TA01 ; V: TA02 ; W: TA02 ; T: "+strings.Join(alts, " | "))})
+	}
+	for _, b := range bases {
+		n := len(b.rules)
+		idx := make([]int, n)
+		for i := range idx {
+			idx[i] = i
+		}
+		var rec func(k int)
+		count := 0
+		rec = func(k int) {
+			if k == n {
+				var rs []string
+				for _, i := range idx {
+					rs = append(rs, b.rules[i])
+				}
+				count++
+				out = append(out, Named{Name: b.name + "/order-" + itoa(count), Spec: Parse(b.start, b.terms, strings.Join(rs, " ; "))})
+				return
+			}
+			for i := k; i < n; i++ {
+				idx[k], idx[i] = idx[i], idx[k]
+				rec(k + 1)
+				idx[k], idx[i] = idx[i], idx[k]
+			}
+		}
+		rec(0)
+	}
+	return out
 }
 
 // Trie is the grammar whose sentences are all strings of exactly n terminals:
